@@ -9,12 +9,13 @@ It records violations in ctx and returns a dict; a live-daemon phase can be run 
 import json, os, re
 import vlib
 
-KEYLEN = 16            # documented: a credential is remembered by the first 16 MAC bytes and its expiry
+KEYLEN = 16            # documented: a credential is remembered by the first 16 MAC bytes and its expiry time0 + ttl
 PURGE_MSEC = 60000     # documented purge period
 M32 = 1 << 32
 
-C05_TAGS = ("insert", "remove", "find", "table", "concurrent")
-C07_TAGS = ("purge", "rearm", "table")
+# which clause of which property a deviation of the implementation from the reference breaks
+C05_TAGS = ("insert-dup", "insert-dup-live", "insert-false", "remove", "find", "table", "concurrent", "purge-early")
+C07_TAGS = ("insert-dup-live", "purge-early", "purge-late", "purge-count", "rearm", "table")
 
 
 # ----------------------------------------------------------------------------- case generation
@@ -55,15 +56,14 @@ def universe(rng, base, nmax=10):
         else:
             exp = base + rng.randrange(-2, 8)
         ttl = rng.choice([1, 5, 60, 300, 3600])
-        if rng.random() < 0.03:                     # uint32 wrap of time0 + ttl
-            time0 = (exp - ttl) % M32
-        else:
-            time0 = exp - ttl
-            if time0 < 0:
-                time0, ttl = 0, exp
+        time0 = exp - ttl
+        if time0 < 0:
+            time0, ttl = 0, exp
+        if time0 >= M32:                            # time0 is a uint32 field; time0 + ttl may exceed 2^32
+            time0, ttl = M32 - 1, exp - (M32 - 1)
         k = (mac, time0, ttl)
-        ident = (mac[:KEYLEN], (time0 + ttl) % M32)
-        if all((x[0][:KEYLEN], (x[1] + x[2]) % M32) != ident for x in keys):
+        ident = (mac[:KEYLEN], time0 + ttl)
+        if all((x[0][:KEYLEN], x[1] + x[2]) != ident for x in keys):
             keys.append(k)
     return keys
 
@@ -73,9 +73,9 @@ def key_str(keys):
 
 
 def gen_q_random(rng, size):
-    base = rng.choice([1000, 5000, 100000, 1 << 31])
+    base = rng.choice([1000, 5000, 100000, 1 << 31, M32 - 3])   # the last: expiries straddle 2^32
     keys = universe(rng, base)
-    exps = sorted(set((t0 + ttl) % M32 for (_, t0, ttl) in keys))
+    exps = sorted(set(t0 + ttl for (_, t0, ttl) in keys))
     clock = base - rng.randrange(3, 10)
     ops = []
     for _ in range(rng.randrange(8, 36)):
@@ -171,7 +171,7 @@ def _parse_keys(s):
     out = []
     for k in s.split(","):
         m, t0, ttl = k.split(":")
-        out.append((bytes.fromhex(m)[:KEYLEN], (int(t0) + int(ttl)) % M32))
+        out.append((bytes.fromhex(m)[:KEYLEN], int(t0) + int(ttl)))
     return out
 
 
@@ -219,9 +219,9 @@ def property_holds(line, out):
                 want = "1" if k in ref else "0"
                 if res != want:
                     if want == "1":
-                        return ("insert", "%s: a credential already recorded (mac16=%s t_expired=%d, clock %d) was "
+                        return ("insert-dup-live" if k[1] >= now else "insert-dup", "%s: a credential already recorded (mac16=%s t_expired=%d, clock %d) was "
                                 "accepted again (replay_insert returned %s)" % (where, k[0].hex(), k[1], now, res))
-                    return ("insert", "%s: a credential never presented before (or removed/expired-and-purged) was "
+                    return ("insert-false", "%s: a credential never presented before (or removed/expired-and-purged) was "
                             "reported as replayed (replay_insert returned %s)" % (where, res))
                 ref.add(k)
             elif op[0] == "r":
@@ -246,13 +246,13 @@ def property_holds(line, out):
                 late = [k for k in dump if k[1] < now]
                 if early:
                     k = early[0]
-                    return ("purge", "%s: purge at %d discarded a record that can still pass the time check "
+                    return ("purge-early", "%s: purge at %d discarded a record that can still pass the time check "
                             "(t_expired=%d >= now)" % (where, now, k[1]))
                 if late:
                     k = late[0]
-                    return ("purge", "%s: purge at %d kept an expired record (t_expired=%d < now)" % (where, now, k[1]))
+                    return ("purge-late", "%s: purge at %d kept an expired record (t_expired=%d < now)" % (where, now, k[1]))
                 if int(m.group(1)) != len(gone):
-                    return ("purge", "%s: purge reports %s removed, %d were expired" % (where, m.group(1), len(gone)))
+                    return ("purge-count", "%s: purge reports %s removed, %d were expired" % (where, m.group(1), len(gone)))
                 if int(m.group(2)) != PURGE_MSEC:
                     return ("rearm", "%s: purge re-armed with %s ms, expected %d" % (where, m.group(2), PURGE_MSEC))
                 ref -= gone
@@ -453,11 +453,13 @@ def component_phase(ctx, prop, proved=True):
                       {"case_line": l, "impl_output": o[:2000], "why": why[1], "kind": why[0],
                        "n_failing": len(direct), "more": [(x[0][:300], x[2][1]) for x in direct[1:4]]})
     elif other:
-        # the other property of the pair fails on a concrete input; for this one it is a correspondence break
+        # the sibling property fails on a concrete history; for this one it is a correspondence break
         l, o, why = other[0]
-        ctx.violation("replay cache misbehaves on a concrete history (%s) — outside %s's own clauses but the model "
-                      "the %s theorems are about no longer describes the code" % (why[1], prop, prop),
-                      {"case_line": l, "impl_output": o[:2000], "why": why[1], "kind": why[0]}, found_input=True)
+        ctx.violation("correspondence ReplayModel ~ replay.c+hash.c broken: the sibling property fails on a concrete "
+                      "history (%s [%s]); no clause of %s fails on the %d histories, but the model its theorems are about "
+                      "no longer describes the code" % (why[1], why[0], prop, len(lines)),
+                      {"obligation": "correspondence ReplayModel ~ replay.c+hash.c", "case_line": l,
+                       "impl_output": o[:2000], "why": why[1], "kind": why[0]}, found_input=False)
     elif mismatches:
         l, a, b = mismatches[0]
         ctx.violation("ReplayModel and replay.c/hash.c disagree on %d histories (e.g. chain order / slot / count) although "
